@@ -3,5 +3,6 @@ CONSTANTS
   Dev <- KnownC09
   MaxLen = 2
   KindSet <- QuickKinds
+  Shape = "genquick"
 INVARIANT GenInv
 CHECK_DEADLOCK FALSE
